@@ -91,14 +91,14 @@ theorem nr_genOutArgs : ∀ (as : Args), ArgsOK as → (genOutArgs as).all Instr
   | .cons a rest, h => by
     simp [genOutArgs, nr_genRv h.1, nr_genOutArgs rest h.2, Instr.plainI]
 
-theorem nr_genRange (a b : Reg) {r : Range} (hr : RangeOK r) : (genRange a b r).all Instr.plainI = true := by
+theorem nr_genRange (a b : Reg) {r : Range} (hr : RangeOK V r) : (genRange a b r).all Instr.plainI = true := by
   obtain ⟨h1, h2⟩ := hr
-  simp only [genRange, List.all_append, nr_genRv h1, Bool.true_and]
+  simp only [genRange, List.all_append, nrC_genRv r.first _ h1, Bool.true_and]
   cases hl : r.last with
   | none => simp [Instr.plainI]
-  | some l => rw [hl] at h2; simpa using nr_genRv h2 _
+  | some l => rw [hl] at h2; simpa using nrC_genRv l _ h2
 
-theorem nr_genMatrixRanges {rows cols : Option Range} (hr : ORangeOK rows) (hc : ORangeOK cols) (cf : Bool) :
+theorem nr_genMatrixRanges {rows cols : Option Range} (hr : ORangeOK V rows) (hc : ORangeOK V cols) (cf : Bool) :
     (genMatrixRanges rows cols cf).all Instr.plainI = true := by
   have h1 : (match rows with | some x => genRange .firstRow .lastRow x | none => []).all Instr.plainI = true := by
     cases rows with
@@ -130,21 +130,21 @@ theorem nr_assembleLoop (pre test bodyPre : List Instr) (body : Code) (post : Li
   simp [nr, Instr.plainI]
 
 
-theorem all_indexVarRange (v : String) (a b : Rv) (w : Bool) (ha : RvOK a) (hb : RvOK b) :
+theorem all_indexVarRange (v : String) (a b : Rv) (w : Bool) (ha : RvC V a) (hb : RvC V b) :
     (indexVarRange v a b w).all Instr.plainI = true := by
-  simp only [indexVarRange, List.all_append, nr_genRv ha, nr_genRv hb, Bool.true_and]
+  simp only [indexVarRange, List.all_append, nrC_genRv a _ ha, nrC_genRv b _ hb, Bool.true_and]
   cases w <;> rfl
 
-theorem all_cycleVarRange (v : String) (start : Option Rv) (hs : WithOK (.cycle v start)) :
+theorem all_cycleVarRange (v : String) (start : Option Rv) (hs : WithOK V (.cycle v start)) :
     (cycleVarRange v start).all Instr.plainI = true := by
   cases start with
   | none => rfl
   | some r =>
-    have hr : RvOK r := hs
-    simp only [cycleVarRange, List.all_append, nr_genRv hr, Bool.true_and]
+    have hr : RvC V r := hs
+    simp only [cycleVarRange, List.all_append, nrC_genRv r _ hr, Bool.true_and]
     rfl
 
-theorem all_withClause (w : Option WithClause) (hw : OWithOK w) : (withClause w).all Instr.plainI = true := by
+theorem all_withClause (w : Option WithClause) (hw : OWithOK V w) : (withClause w).all Instr.plainI = true := by
   cases w with
   | none => rfl
   | some wc =>
@@ -155,14 +155,14 @@ theorem all_withClause (w : Option WithClause) (hw : OWithOK w) : (withClause w)
 theorem all_loopPost (v : Option String) : (loopPost v).all Instr.plainI = true := by
   cases v <;> rfl
 
-theorem all_iterItem {i : IterItem} (hi : ItemOK i) : (iterItem i).all Instr.plainI = true := by
+theorem all_iterItem {i : IterItem} (hi : ItemOK V i) : (iterItem i).all Instr.plainI = true := by
   cases i with
   | all => rfl
-  | light n => simp only [iterItem, List.all_append, nr_genRv (show RvOK n from hi), Bool.true_and]; rfl
-  | group n => simp only [iterItem, List.all_append, nr_genRv (show RvOK n from hi), Bool.true_and]; rfl
-  | location n => simp only [iterItem, List.all_append, nr_genRv (show RvOK n from hi), Bool.true_and]; rfl
+  | light n => simp only [iterItem, List.all_append, nrC_genRv n _ (show RvC V n from hi), Bool.true_and]; rfl
+  | group n => simp only [iterItem, List.all_append, nrC_genRv n _ (show RvC V n from hi), Bool.true_and]; rfl
+  | location n => simp only [iterItem, List.all_append, nrC_genRv n _ (show RvC V n from hi), Bool.true_and]; rfl
 
-theorem all_iterItems (items : List IterItem) (h : ∀ i ∈ items, ItemOK i) :
+theorem all_iterItems (items : List IterItem) (h : ∀ i ∈ items, ItemOK V i) :
     (iterItems items).all Instr.plainI = true := by
   induction items with
   | nil => rfl
@@ -180,10 +180,10 @@ theorem nr_genLoop {hd : LoopHdr} (hh : LoopHdrOK V hd) (body : Code) (hb : nr b
     exact nr_assembleLoop _ _ _ _ _ (all_indexVarRange v a b true hh.1 hh.2) rfl rfl hb rfl
   | interp n v a b =>
     refine nr_assembleLoop _ _ _ _ _ ?_ rfl rfl hb rfl
-    rw [List.all_append, nr_genRv hh.1, all_indexVarRange v a b false hh.2.1 hh.2.2]; rfl
+    rw [List.all_append, nrC_genRv n _ hh.1, all_indexVarRange v a b false hh.2.1 hh.2.2]; rfl
   | cycle n v start =>
     refine nr_assembleLoop _ _ _ _ _ ?_ rfl rfl hb rfl
-    rw [List.all_append, nr_genRv hh.1, all_cycleVarRange v start hh.2]; rfl
+    rw [List.all_append, nrC_genRv n _ hh.1, all_cycleVarRange v start hh.2]; rfl
   | all lv w =>
     refine nr_assembleLoop _ _ _ _ _ ?_ rfl rfl hb (all_loopPost _)
     rw [List.all_append, List.all_append, all_withClause w hh]; rfl
